@@ -246,6 +246,7 @@ fn check(c: &Case, st: &mut Stats) -> Result<(), String> {
     st.class_if(f % t != 0, "F mod T != 0");
     st.class_if(spec.z > 1, "Z>1");
     st.class_if(spec.z > 128, "Z>128");
+    st.class_if(spec.kt > 65535, "Kt >= 2^16");
     st.class_if(spec.n > 1, "N>1");
     st.class_if(none_at_k, "None at >= K symbols");
     st.class_if(dup, "duplicates present");
@@ -293,13 +294,15 @@ fn signature(_: &Case, msg: &str) -> String {
 }
 
 pub fn run(ctx: &Ctx, rep: &mut Report) {
-    rep.rule = "generated object (Al in {1,2,4,8}, T multiple of Al up to 192 weighted to 1/Al/63,64,65 strides, Z <= 6, N <= 5, K per block <= 64 (quick), F with F mod T uniform incl. F < T and F = 1, data in {random, zero, 0xFF, one-hot, position-coded}) and a delivery history: a generated list of indices (with repetition) into the pool of the encoder's source packets plus repair packets with near/uniform/far ESIs, in half the cases completed with every missing source packet; optional serialize/deserialize; decoder back-end default/sparse/dense. A separate group has many blocks (Z in 7..=255 weighted to 126..130 and 250..255, 1..4 symbols per block, histories up to 3000 deliveries). Thorough adds K around the dense/sparse switch (241..260), K in 1000..1100 and K >= 10000. Oracle: after every Decoder::decode call, and after every add_new_packet + get_result on a second decoder, the answer is None or exactly the object (length F); Some once all source packets were delivered; never back to None; the same history through per-block decoders (fed beyond their first answer) gives None or the zero-padded block, and so does one batch call with the block's distinct packets. Non-trivial = at least one block completed through the solver (>= K distinct symbols with a source symbol missing); distinct by (object, history).".into();
+    rep.rule = "generated object (Al in {1,2,4,8}, T multiple of Al up to 192 weighted to 1/Al/63,64,65 strides, Z <= 6, N <= 5, K per block <= 64 (quick), F with F mod T uniform incl. F < T and F = 1, data in {random, zero, 0xFF, one-hot, position-coded}) and a delivery history: a generated list of indices (with repetition) into the pool of the encoder's source packets plus repair packets with near/uniform/far ESIs, in half the cases completed with every missing source packet; optional serialize/deserialize; decoder back-end default/sparse/dense. A separate group has many blocks (Z in 7..=255 weighted to 126..130 and 250..255, 1..4 symbols per block, histories up to 3000 deliveries). A further group has objects of more than 2^16 symbols in total (Kt 40 000..100 000 weighted to 65 300..68 000, Z 150..=255, T <= 4), always completed. Thorough adds K around the dense/sparse switch (241..260), K in 1000..1100 and K >= 10000. Oracle: after every Decoder::decode call, and after every add_new_packet + get_result on a second decoder, the answer is None or exactly the object (length F); Some once all source packets were delivered; never back to None; the same history through per-block decoders (fed beyond their first answer) gives None or the zero-padded block, and so does one batch call with the block's distinct packets. Non-trivial = at least one block completed through the solver (>= K distinct symbols with a source symbol missing); distinct by (object, history).".into();
     let n = ctx.tier.pick(50_000u64, 400_000);
     rep.absorb("small", run_sharded("C01", "small", ctx.seed, n, 32, || strategy(64, 6, 400), check, to_json, signature));
     let n = ctx.tier.pick(1_500u64, 8_000);
     rep.absorb("switch", run_sharded("C01", "switch", ctx.seed, n, 32, || strategy_range(241, 262, 2, 700), check, to_json, signature));
     let n = ctx.tier.pick(1_200u64, 12_000);
     rep.absorb("manyblocks", run_sharded("C01", "manyblocks", ctx.seed, n, 32, strategy_manyblocks, check, to_json, signature));
+    let n = ctx.tier.pick(16u64, 300);
+    rep.absorb("largeobject", run_sharded("C01", "largeobject", ctx.seed, n, 16, strategy_largeobject, check, to_json, signature));
     if ctx.tier == Tier::Thorough {
         rep.absorb("k1000", run_sharded("C01", "k1000", ctx.seed, 300, 32, || strategy_range(1000, 1100, 1, 1600), check, to_json, signature));
         rep.absorb("k10000", run_sharded("C01", "k10000", ctx.seed, 24, 8, || strategy_big(), check, to_json, signature));
@@ -324,6 +327,27 @@ fn strategy_manyblocks() -> impl Strategy<Value = Case> {
             let kt = z + ((rr >> 16) % (3 * z as u64 + 1)) as usize;
             let spec = ObjectSpec { al, tu, z, n: 1 + (rr % tu.min(3) as u64) as usize, kt, r: 1 + ((rr >> 8) % t as u64) as usize, class: rr % 5, seed };
             Case { spec, hist, complete, wire, backend }
+        })
+}
+
+/// Objects of more than 2^16 symbols in total (Z near 255, a few hundred symbols per block):
+/// a few hundred generated deliveries (duplicates, repair packets), then every missing source
+/// packet in shuffled order.
+fn strategy_largeobject() -> impl Strategy<Value = Case> {
+    (
+        prop_oneof![3 => 65_300usize..=68_000, 1 => 40_000usize..=100_000],
+        prop_oneof![3 => 230usize..=255, 1 => 150usize..=255],
+        prop_oneof![Just((1usize, 1usize)), Just((1, 2)), Just((2, 1)), Just((4, 1))],
+        any::<u64>(),
+        any::<u64>(),
+        proptest::collection::vec(any::<u16>(), 0..600),
+        any::<bool>(),
+        0u8..3,
+    )
+        .prop_map(|(kt, z, (al, tu), rr, seed, hist, wire, backend)| {
+            let t = al * tu;
+            let spec = ObjectSpec { al, tu, z, n: 1 + (rr % tu as u64) as usize, kt, r: 1 + ((rr >> 8) % t as u64) as usize, class: rr % 5, seed };
+            Case { spec, hist, complete: true, wire, backend }
         })
 }
 
